@@ -17,6 +17,9 @@ import GojaModel.C13.GoSlice
 import GojaModel.C13.Refine
 import GojaModel.C13.Nested
 import GojaModel.C13.NestedHist
+import GojaModel.C13.ExportDispatchLemmas
+import GojaModel.C13.DispatchCatalogue
+import GojaModel.C13.GatewayComposite
 import GojaModel.C13.ExportToLemmas
 
 namespace GojaModel.C13
@@ -744,6 +747,65 @@ theorem exportTo_one_identity_per_object_and_type (js : Nat → JFields) (tys : 
     ImgT asU r.1.cache (.ref root) ty r.2 := by
   have hok := expTo_root_ok js tys asU N T root fuel ty hcl htc hr hty hf
   exact ⟨hok, exportTo_one_identity_per_object_and_type_of_ok js tys asU fuel root ty hok⟩
+
+/-! ### typed export dispatch: which Go container each script object exports into, with which elements -/
+
+/-- EXPORTTO INTO SLICES / ARRAYS / []byte = THE DOCUMENTATION, for every well-formed source object (any implementation
+    class, with or without / with an overridden Symbol.iterator, callable or not, with or without `length`) and every
+    such destination: the documented elements in the documented order (an Array or Set into []interface{}: its plain
+    Export(); a Set: its elements; an iterable — Arrays included, their iterator may be overridden —: the iteration
+    results; an array-like non-function: obj[0..length-1]); a Go array destination succeeds iff the lengths match;
+    a bytes-backed object into []byte is a view of its buffer; anything else is "not an array or iterable". -/
+theorem exportTo_containers_as_documented (s : JSrc) (d : Dest) (hwf : s.WF) (hd : d ≠ .map) :
+    (∀ l, docSeqElems s d = some l →
+        (fits d l.length = true → mech s d = .seq l) ∧
+        (fits d l.length = false → ∃ e, mech s d = .err e ∧ e ≠ .notArrayOrIterable)) ∧
+    (docSeqElems s d = none →
+        (s.kind = .bytes ∧ d = .bytes → mech s d = .bytesView s.byteLen) ∧
+        (¬ (s.kind = .bytes ∧ d = .bytes) → mech s d = .err .notArrayOrIterable)) :=
+  typed_export_seq_as_documented s d hwf hd
+
+/-- EXPORTTO INTO MAPS = THE DOCUMENTATION: a Map its entries, a Set its elements with zero values, every other object
+    its own enumerable string-keyed properties. -/
+theorem exportTo_maps_as_documented (s : JSrc) : mech s .map = docMap s :=
+  typed_export_map_as_documented s
+
+/-- identity cache of the typed export methods — deliberately weaker than the property: a Set into a Go map type is
+    excluded, the current code does not cache there (next theorem). -/
+theorem exportTo_containers_cached_partial (k : SrcKind) (d : Dest) (h : ¬ (k = .set ∧ d = .map)) :
+    cachesTyped k d = true :=
+  typed_export_identity_cached_partial k d h
+
+/-- FINDING (current code): setObject.exportToMap never enters its map into the identity cache:
+    `var s = new Set([1]); [s, s]` into `[]map[interface{}]interface{}` gives two different Go maps. -/
+theorem set_exportToMap_not_cached_witness : cachesTyped .set .map = false :=
+  set_into_map_not_cached_witness
+
+/-- every source object of the exhaustive D / DS correspondence catalogue (20 named sources × 7 destinations) satisfies the
+    well-formedness hypothesis of `exportTo_containers_as_documented`: the theorem applies to every compared line. -/
+theorem dispatch_catalogue_wellformed :
+    ∀ n ∈ DispatchDriver.catalogueNames, ∀ s, DispatchDriver.catalogue n = some s → s.WF :=
+  DispatchDriver.catalogue_wf
+
+/-! ### composite and string parameters of a Go function called from script -/
+
+/-- EVERY STRUCT / MAP / SLICE ARGUMENT OF A GO FUNCTION IS ONE COMPLETE TYPED EXPORT OF ITS OWN: the i-th converted
+    argument is exactly the typed traversal of that script value started with an empty identity cache, hence (closed
+    heap, enough fuel) has all the guarantees of `exportTo_one_identity_per_object_and_type` — sharing and cycles inside
+    one argument are preserved; nothing is shared between two arguments (`wrapReflectFunc` makes a new context each). -/
+theorem gateway_composite_arg_is_own_export (js : Nat → JFields) (tys : Nat → TyDef) (asU : Nat → Nat → Bool)
+    (N T fuel : Nat) (args : List (JVal × Ty)) (i root : Nat) (ty : Ty)
+    (hcl : ClosedJ js N) (htc : TyClosed tys T) (hr : root < N) (hty : TyIn T ty) (hf : N * (T + 1) + 1 ≤ fuel)
+    (hi : args[i]? = some (.ref root, ty)) :
+    ∃ r, (gatewayArgsT js tys asU fuel args)[i]? = some r ∧
+      r = expTo js tys asU fuel TCtx.empty (.ref root) ty ∧
+      r.1.ok = true ∧
+      (∀ (a b : Nat) (key : Nat × Nat), r.1.cache[a]? = some key → r.1.cache[b]? = some key → a = b) ∧
+      (∀ e ∈ r.1.out, OutGoodT js tys asU r.1.cache e) ∧
+      r.1.out.length = r.1.cache.length ∧
+      ImgT asU r.1.cache (.ref root) ty r.2 :=
+  ⟨_, gatewayArgsT_get js tys asU fuel args i (.ref root) ty hi, rfl,
+    exportTo_one_identity_per_object_and_type js tys asU N T root fuel ty hcl htc hr hty hf⟩
 
 /-! ### the two-level identity cache (untyped entry + per-type items) of one ExportTo -/
 
